@@ -472,8 +472,13 @@ def c03_case(tid, n, perm, reconnect, rng, lazy=False):
     drained = run.drain()
     if lazy:
         # the application asks only now, with everything waiting in the observer's buffer: one get too many stays pending
-        for _ in range(n):
-            run.apply({"a": "AppGet", "c": "A", "kind": "message"})
+        # (one at a time, all in one reactor turn, or two per turn: several requests may be outstanding before the first is served)
+        burst = [1, n, 2][tid % 3]
+        k = 0
+        while k < n:
+            b = min(burst, n - k)
+            run.apply({"a": "AppGet", "c": "A", "kind": "message"} if b == 1 else {"a": "AppGetBurst", "c": "A", "kind": "message", "n": b})
+            k += b
         drained = run.drain() and drained
     return run, bool(drained), drained, ok
 
@@ -945,7 +950,7 @@ def world_to_spec(run, a):
     """world action -> lastAct pattern of the spec ('*' = not compared); None = no spec step."""
     w = run.world
     t = a["a"]
-    if t in ("Retry", "AppGet", "AppDerive"):
+    if t in ("Retry", "AppGet", "AppGetBurst", "AppDerive"):
         return None
 
     def cname(k):
@@ -1139,8 +1144,11 @@ def random_real_walk(tid, rng, prop, steps=60):
         cl = w.clients[c]
         if cl.lazy and not any(k == "closed" for k, _ in cl.events):
             other = w.clients["B" if c == "A" else "A"]
-            for _ in range(len(other.sent) + 1):
-                run.apply({"a": "AppGet", "c": c, "kind": "message"})
+            if tid % 2:
+                run.apply({"a": "AppGetBurst", "c": c, "kind": "message", "n": len(other.sent) + 1})
+            else:
+                for _ in range(len(other.sent) + 1):
+                    run.apply({"a": "AppGet", "c": c, "kind": "message"})
     if prop in ("C18", "C08") :
         # after everything: get_*() issued after the closed notification must fail, not hang
         for c in ("A", "B"):
